@@ -188,8 +188,13 @@ pub fn c16(tier: &str, seed: u64) {
     let xs: Vec<Vec<u8>> = shares.iter().map(|s| share_x(&s.to_bytes())).collect();
     let distinct = xs.iter().collect::<std::collections::BTreeSet<_>>().len() == xs.len();
     if t == 0 {
-      if recover(&shares).is_ok() {
-        fail("threshold_zero_recovered", &desc);
+      // any number of shares, in particular exactly one
+      for k in 1..=shares.len() {
+        if recover(&shares[..k]).is_ok() {
+          let mut d = desc.clone();
+          d.push(("shares_given", k.to_string()));
+          fail("threshold_zero_recovered", &d);
+        }
       }
     } else if distinct {
       let mut sel = shares.clone();
@@ -341,6 +346,41 @@ pub fn c05(tier: &str, seed: u64) {
             Ok(Err(())) => {}
           }
           case(true);
+        }
+      }
+    }
+    // a whole FIELD of one share replaced by a distinguished value (all zero: the field element 0 for
+    // the share point / value; all 0xff where that still decodes), in every share position
+    for pos in 0..cnt {
+      for (fname, range) in &fields {
+        if range.is_empty() || *fname == "threshold" {
+          continue;
+        }
+        for fill in [0u8, 0xff] {
+          let mut bs = shares.clone();
+          if bs[pos][range.clone()].iter().all(|&b| b == fill) {
+            continue;
+          }
+          for o in range.clone() {
+            bs[pos][o] = fill;
+          }
+          let parsed: Option<Vec<AShare>> = bs.iter().map(|b| AShare::from_bytes(b)).collect();
+          let Some(p) = parsed else { continue };
+          let res = std::panic::catch_unwind(std::panic::AssertUnwindSafe(|| recover(&p).map(|c| c.get_message()).map_err(|_| ())));
+          let d = vec![("field", fname.to_string()), ("field_filled_with", format!("{:02x}", fill)), ("share_position", pos.to_string()), ("threshold", t.to_string()), ("shares", hexlist(&bs)), ("original_message", hex(&m))];
+          match res {
+            Err(_) => fail("recover_panicked", &d),
+            Ok(Ok(got)) => {
+              if got != m {
+                fail("recovered_other_message", &d);
+              } else if pos == 0 && !(t == 1 && *fname == "share_point") {
+                fail("altered_first_share_accepted", &d);
+              }
+            }
+            Ok(Err(())) => {}
+          }
+          case(true);
+          stat("oracle.C05.whole_field_fills");
         }
       }
     }
